@@ -8,15 +8,36 @@ package quicreuse
 // (interference points).  No real socket is opened, so everything can run inside a testing/synctest bubble.
 
 import (
+	"crypto/ed25519"
+	"crypto/rand"
+	"crypto/tls"
+	"crypto/x509"
+	"crypto/x509/pkix"
 	"errors"
 	"fmt"
+	"math/big"
 	"net"
 	"os"
 	"sync"
 	"sync/atomic"
 	"syscall"
+	"testing"
 	"time"
 )
+
+func vfQrCert(t testing.TB) tls.Certificate {
+	pub, priv, err := ed25519.GenerateKey(rand.Reader)
+	if err != nil {
+		t.Fatal(err)
+	}
+	tmpl := &x509.Certificate{SerialNumber: big.NewInt(1), Subject: pkix.Name{CommonName: "vf"},
+		NotBefore: time.Unix(0, 0), NotAfter: time.Date(2100, 1, 1, 0, 0, 0, 0, time.UTC), DNSNames: []string{"vf"}}
+	der, err := x509.CreateCertificate(rand.Reader, tmpl, tmpl, pub, priv)
+	if err != nil {
+		t.Fatal(err)
+	}
+	return tls.Certificate{Certificate: [][]byte{der}, PrivateKey: priv}
+}
 
 type vfQrPkt struct {
 	b    []byte
@@ -33,7 +54,8 @@ type vfQrNet struct {
 	failNext error
 	// badNext makes the next listenUDP call return a socket on which quic.Transport cannot initialise (one shot)
 	badNext bool
-	calls   []string // log of listenUDP calls ("udp4 0.0.0.0:0 -> #3" / "... -> EADDRINUSE")
+	calls   []string        // log of listenUDP calls ("udp4 0.0.0.0:0 -> #3" / "... -> EADDRINUSE")
+	onOpen  func(*vfQrSock) // called for every socket the code under test obtained
 	drop    atomic.Bool
 }
 
@@ -46,6 +68,8 @@ type vfQrSock struct {
 	inbox  chan vfQrPkt
 	closed chan struct{}
 	closes atomic.Int32
+	cm     bool // obtained by the code under test through listenUDP
+	bad    bool
 	born   time.Time
 	died   time.Time
 
@@ -79,8 +103,21 @@ func vfQrConflict(a, b *net.UDPAddr) bool {
 // listenUDP is the fake OS: port 0 gets a fresh port, a fixed port conflicts with any open socket on an overlapping address.
 func (n *vfQrNet) listenUDP(network string, laddr *net.UDPAddr) (net.PacketConn, error) {
 	n.call("listenudp", nil)
+	return n.open(network, laddr, true)
+}
+
+// ext opens a socket for the harness itself (remote peers, lenders): no fault applies, not attributed to the code under test.
+func (n *vfQrNet) ext(network string, laddr *net.UDPAddr) (*vfQrSock, error) {
+	pc, err := n.open(network, laddr, false)
+	if err != nil {
+		return nil, err
+	}
+	return pc.(*vfQrSock), nil
+}
+
+func (n *vfQrNet) open(network string, laddr *net.UDPAddr, cm bool) (net.PacketConn, error) {
 	n.mu.Lock()
-	if err := n.failNext; err != nil {
+	if err := n.failNext; err != nil && cm {
 		n.failNext = nil
 		n.calls = append(n.calls, fmt.Sprintf("%s %s -> %v", network, laddr, err))
 		n.mu.Unlock()
@@ -104,19 +141,28 @@ func (n *vfQrNet) listenUDP(network string, laddr *net.UDPAddr) (net.PacketConn,
 	} else {
 		for _, o := range n.socks {
 			if o.closes.Load() == 0 && vfQrConflict(o.laddr, a) {
-				n.calls = append(n.calls, fmt.Sprintf("%s %s -> EADDRINUSE", network, laddr))
+				if cm {
+					n.calls = append(n.calls, fmt.Sprintf("%s %s -> EADDRINUSE", network, laddr))
+				}
 				n.mu.Unlock()
 				return nil, &net.OpError{Op: "listen", Net: network, Addr: a, Err: os.NewSyscallError("bind", syscall.EADDRINUSE)}
 			}
 		}
 	}
 	s := &vfQrSock{n: n, id: len(n.socks) + 1, laddr: a, inbox: make(chan vfQrPkt, 512), closed: make(chan struct{}),
-		wake: make(chan struct{}, 1), born: time.Now()}
+		wake: make(chan struct{}, 1), born: time.Now(), cm: cm}
 	n.socks = append(n.socks, s)
-	bad := n.badNext
-	n.badNext = false
-	n.calls = append(n.calls, fmt.Sprintf("%s %s -> #%d", network, laddr, s.id))
+	bad := cm && n.badNext
+	if cm {
+		n.badNext = false
+		n.calls = append(n.calls, fmt.Sprintf("%s %s -> #%d", network, laddr, s.id))
+	}
+	s.bad = bad
+	onOpen := n.onOpen
 	n.mu.Unlock()
+	if cm && onOpen != nil {
+		onOpen(s)
+	}
 	if bad {
 		return vfQrBadSock{s}, nil
 	}
